@@ -68,9 +68,11 @@ def allowed_diff(cin, cout, carded, allowed_vars, path, diffs, top=True):
                     continue
                 ok = False
                 if x[0] == "decl" and y[0] == "decl" and x[1] == y[1] and x[3] == y[3]:
-                    if k == last_color and sel in carded:
+                    # only the colour may change: comments written inside the value stay, in order
+                    same_comments = [t for t in x[2] if t[0] == "comment"] == [t for t in y[2] if t[0] == "comment"]
+                    if k == last_color and sel in carded and same_comments:
                         ok = True
-                    elif top and sel in (":root", "html") and x[1].startswith("--") and x[1] in allowed_vars:
+                    elif top and sel in (":root", "html") and x[1].startswith("--") and x[1] in allowed_vars and same_comments:
                         ok = True
                 if not ok:
                     diffs.append(f"{path}[{i}] rule {sel!r}: item {k} changed from {show(x)} to {show(y)}")
@@ -169,7 +171,20 @@ def one_run(rec, lib, rnd, d, dir_mode, st, inproc):
     prefix = "proj" if rnd.random() < 0.3 else ""
     if prefix:
         files = {os.path.join(prefix, rel): sh for rel, sh in files.items()}
+    link_real = None
+    if not dir_mode and rnd.random() < 0.15:
+        # the argument is a symbolic link to a stylesheet kept elsewhere: the output belongs beside the *given* path
+        (rel0, sheet0), = files.items()
+        link_real = os.path.join("shared", "base.css")
+        os.makedirs(os.path.join(d, "shared"), exist_ok=True)
+        with open(os.path.join(d, link_real), "w", encoding="utf-8", newline="") as f:
+            f.write(sheet0.text)
+        os.makedirs(os.path.dirname(os.path.join(d, rel0)) or d, exist_ok=True)
+        os.symlink(os.path.relpath(os.path.join(d, link_real), os.path.dirname(os.path.join(d, rel0)) or d), os.path.join(d, rel0))
+        rec.count("symlink_arguments")
     for rel, sheet in files.items():
+        if link_real:
+            break
         p = os.path.join(d, rel)
         os.makedirs(os.path.dirname(p), exist_ok=True)
         with open(p, "w", encoding="utf-8", newline="") as f:
